@@ -85,12 +85,11 @@ Lemma rk_outside_h_frag : RVHFrag.h_frag rk_lin = false.
 Proof. vm_compute. reflexivity. Qed.
 
 Lemma rk_hypotheses :
-  XTC.entry_int rk_lin = true /\ lin_check_prog rk_lin = true /\ ann_check_prog rk_lin = true /\ switch_guard rk_lin = true /\
+  XTC.entry_int rk_lin = true /\ lin_check_prog rk_lin = true /\ ann_check_prog rk_lin = true /\
   (exists lc', rv_compile rk_lin 0 = Ok (rk_code, 5%nat, lc')) /\ asm_wf rk_code = None /\ code_small rk_code = true /\
   Nat.leb (main_arity rk_lin) 14 = true /\ fits_run 2000 rk_lin rk_args = true.
 Proof.
   split; [vm_compute; reflexivity|]. split; [vm_compute; reflexivity|]. split; [vm_compute; reflexivity|].
-  split; [vm_compute; reflexivity|].
   split; [eexists; vm_compute; reflexivity|]. split; [vm_compute; reflexivity|]. split; [vm_compute; reflexivity|].
   split; vm_compute; reflexivity.
 Qed.
@@ -98,7 +97,7 @@ Qed.
 (* the theorem applies: there are step counts for which the RISC-V run gives the observation of the linear machine ... *)
 Lemma rk_simulated : exists outer inner, fst (run_rv outer inner rk_code rk_args) = run_linear 2000 rk_lin rk_args.
 Proof.
-  destruct rk_hypotheses as (H1 & H2 & H3 & H4 & (lc' & H5) & H6 & H7 & H8 & H9).
+  destruct rk_hypotheses as (H1 & H2 & H3 & (lc' & H5) & H6 & H7 & H8 & H9).
   eapply (rv_codegen_simulates_all rk_lin 0 rk_code 5 lc' rk_args 2000); eauto.
   - now apply fits_run_sound with (fuel := 2000%nat).
   - vm_compute. discriminate.
@@ -114,4 +113,47 @@ Proof. split; vm_compute; reflexivity. Qed.
 Lemma rk_code_has_links :
   existsb (fun c => match c with SW _ 2%N 48 => true | _ => false end) rk_code = true /\
   existsb (fun c => match c with LW _ _ 48 => true | _ => false end) rk_code = true.
+Proof. split; vm_compute; reflexivity. Qed.
+
+(* ---------- an EMPTY Switch is covered too ----------
+   A match on a data type without constructors emits a label only.  main(n) creates a single-destructor closure whose clause
+   body is such a Switch (no captured variable: the clause code consists of three labels, no instruction - an indirect jump
+   to it would have nothing to land on) and exits; the closure is dropped.  The landing of an Invoke is established when
+   the closure is invoked, where the code of the statement the machine executes provably contains an instruction
+   (Proof/RVKSimProg.v), so no guard on the program excludes this shape. *)
+Section ExEmpty.
+Local Open Scope string_scope.
+Local Open Scope N_scope.
+Definition re_types : list tydecl :=
+  [ mkt ("Empty", 0) []; mkt ("K", 0) [mkx (ki "D" 0) [mkb (ki "e" 0) Prd (Decl ("Empty", 0))]] ].
+Definition re_main_body : stmt :=
+  Create (ki "k" 2) (Decl ("K", 0)) None
+    [ (ki "D" 0, [mkb (ki "e" 3) Prd (Decl ("Empty", 0))], Switch (ki "e" 3) (Decl ("Empty", 0)) []) ]
+  (Exit (ki "n" 1)).
+Definition re_prog : prog := mkp [mkd (ki "main" 0) [ke (ki "n" 1)] re_main_body] re_types 3.
+End ExEmpty.
+Definition re_lin : prog := linearize re_prog.
+Definition re_code : list rcode := match rv_compile re_lin 0 with Ok (cs, _, _) => cs | Err _ => [] end.
+
+Lemma re_hypotheses :
+  XTC.entry_int re_lin = true /\ lin_check_prog re_lin = true /\ ann_check_prog re_lin = true /\
+  (exists lc', rv_compile re_lin 0 = Ok (re_code, 1%nat, lc')) /\ asm_wf re_code = None /\ code_small re_code = true /\
+  Nat.leb (main_arity re_lin) 14 = true /\ fits_run 100 re_lin [7] = true.
+Proof.
+  split; [vm_compute; reflexivity|]. split; [vm_compute; reflexivity|]. split; [vm_compute; reflexivity|].
+  split; [eexists; vm_compute; reflexivity|]. split; [vm_compute; reflexivity|]. split; [vm_compute; reflexivity|].
+  split; vm_compute; reflexivity.
+Qed.
+(* the last three items of the code are the labels of the clause: nothing of non-zero size follows the closure's label *)
+Lemma re_code_ends_with_labels :
+  match rev re_code with LAB _ :: LAB _ :: LAB _ :: _ => true | _ => false end = true.
+Proof. vm_compute. reflexivity. Qed.
+Lemma re_simulated : exists outer inner, fst (run_rv outer inner re_code [7]) = run_linear 100 re_lin [7].
+Proof.
+  destruct re_hypotheses as (H1 & H2 & H3 & (lc' & H5) & H6 & H7 & H8 & H9).
+  eapply (rv_codegen_simulates_all re_lin 0 re_code 1 lc' [7] 100); eauto.
+  - now apply fits_run_sound with (fuel := 100%nat).
+  - vm_compute. discriminate.
+Qed.
+Lemma re_runs : run_linear 100 re_lin [7] = ([], OExit 7) /\ fst (run_rv 20 2000 re_code [7]) = ([], OExit 7).
 Proof. split; vm_compute; reflexivity. Qed.
